@@ -20,6 +20,10 @@ def apply_step(proc, step):
     try:
         if step["op"] == "set_must":
             proc.set_value(step["dot"], pyvalue(step["t"], step["v"]), mustexist=True)
+        elif step["op"] == "set_opt" and step.get("via") == "get":
+            # the optional-match QUERY with a default value creates the missing tail as well (C09)
+            for _ in proc.get_nodes(step["dot"], mustexist=False, default_value=pyvalue(step["t"], step["v"])):
+                pass
         elif step["op"] == "set_opt":
             proc.set_value(step["dot"], pyvalue(step["t"], step["v"]))
         elif step["op"] == "delete":
@@ -86,8 +90,10 @@ def diff_tables(a, b):
     return ""
 
 
-def replay_history(rec, style="block", plain=False):
-    """Returns (problem_kind, message) or None.  The verdict concerns the LAST step of the history."""
+def replay_history(rec, style="block", plain=False, via="set"):
+    """Returns (problem_kind, message) or None.  The verdict concerns the LAST step of the history.
+
+    via="get": a last step that creates a missing tail is issued as get_nodes(path, default_value=v) instead of set_value."""
     from yamlpath import Processor
     from harness import absdoc
     text = absdoc.concretise(rec["doc0"], style, plain)
@@ -97,8 +103,10 @@ def replay_history(rec, style="block", plain=False):
     proc = Processor(absdoc.LOG, data)
     hist = rec["hist"]
     for k, step in enumerate(hist):
-        out, msg = apply_step(proc, step)
         last = k == len(hist) - 1
+        if last and via == "get":
+            step = dict(step, via="get")
+        out, msg = apply_step(proc, step)
         if out != step["out"]:
             if not last:
                 return ("prefix", "step %d (%s %r) gave %s, an earlier record covers it" % (k + 1, step["op"], step["dot"], out))
@@ -127,6 +135,12 @@ def _work(items):
         for style, plain in variants:
             r = replay_history(rec, style, plain)
             out.append((rec, style, plain, r))
+            last = rec["hist"][-1]
+            if last["op"] == "set_opt" and last.get("grew") and last["out"] == "ok":
+                r = replay_history(rec, style, plain, via="get")
+                if r is not None and r[0] != "prefix":
+                    r = (r[0] + "-by-query", "get_nodes(default_value=...) instead of set_value: " + r[1])
+                out.append((rec, style, plain, r))
     return out
 
 
@@ -171,7 +185,7 @@ def run_histories(ctx, ops, pid, cfgs, info_ops=()):
         sig = "%s:%s:%s" % (kind, last["op"], segkinds)
         if kind == "crash":
             sig += ":" + msg.split(" @ ")[-1].split(" ")[-1]
-        ctx.violation(sig, msg, {"kind": "history", "rec": rec, "style": style, "plain": plain})
+        ctx.violation(sig, msg, {"kind": "history", "rec": rec, "style": style, "plain": plain, "via": "get" if kind.endswith("-by-query") else "set"})
     ctx.coverage.update({
         "evaluations": n, "distinct_nontrivial": len(nontrivial), "histories_with_failing_prefix": prefix,
         "rule": "every history of MC_Edit (initial documents of the generator + curated ones x edits from the current document's vocabulary, depth <= EditDepth) whose last step is in %s; replayed on one Processor, final document + dump/reload compared; non-trivial = every history (each changes the document or is a refusal); distinct by (initial document, steps)" % sorted(ops),
@@ -290,7 +304,7 @@ def _segkinds(dot):
 def replay_file(path, pid):
     with open(path) as fh:
         rp = json.load(fh)["replay"]
-    r = replay_history(rp["rec"], rp["style"], rp["plain"])
+    r = replay_history(rp["rec"], rp["style"], rp["plain"], via=rp.get("via", "set"))
     print(r)
     bad = r is not None and r[0] != "prefix"
     print("VIOLATION property=%s replay=%s" % (pid, path) if bad else "no violation")
